@@ -41,6 +41,10 @@ const (
 	stOfflineRe1 c15Step = "offline-reorg1"     // stopped; tip replaced by 2 new blocks; restart
 	stOfflineRe2 c15Step = "offline-reorg2"     // stopped; 2 blocks replaced by 3 new ones; restart
 	stOfflineAll c15Step = "offline-reorg-all"  // stopped; every block above genesis replaced (reaches below the birthday block); restart
+	// stopped; chain grows by two blocks (the second pays the wallet); restart; a third block
+	// connects BEFORE the backend has answered the start-up rescan (the wallet is still behind:
+	// the notification cannot be applied yet and must leave nothing behind)
+	stOfflineLate c15Step = "offline-extend2+block-during-rescan"
 )
 
 type c15Job struct {
@@ -324,6 +328,26 @@ func c15Exec(worker int, j c15Job, window int, fail func(sig, msg string)) (eval
 				break
 			}
 			restart()
+		case stOfflineLate:
+			s.Stop()
+			for i := 0; i < 2; i++ {
+				var btx []*wire.MsgTx
+				if i == 1 {
+					btx = append(btx, fund())
+				}
+				b := c.NewBlock(c.Tip, nextBranch(), btx)
+				place(b)
+				c.Tip = b
+				noteConnect(b.Height)
+			}
+			if err := s.Open(0); err != nil {
+				ev.Fatal("reopen: %v", err)
+			}
+			s.Attach()
+			late := c.NewBlock(c.Tip, nextBranch(), nil)
+			s.Connect(late, style)
+			noteConnect(late.Height)
+			s.ServeRescans()
 		case stOffline1, stOfflineRe1, stOfflineRe2, stOfflineAll:
 			drop := map[c15Step]int{stOffline1: 0, stOfflineRe1: 1, stOfflineRe2: 2, stOfflineAll: int(c.Tip.Height)}[step]
 			if step == stOfflineAll && drop < 3 {
@@ -394,7 +418,7 @@ func runC15(args []string) {
 				cov["exhaustive"] = false
 			}
 		}
-		cov["rule"] = "every sequence of evolution steps up to the depth over {extend (empty / paying the wallet / spending a wallet output / re-confirming reorged txs), disconnect, duplicate disconnect, stale disconnect (above tip, sibling of tip), restart, offline extension, offline reorg depth 1 and 2} x 3 notification orders (btcd, bitcoind, legacy), on the real wallet through its notification loop and start-up sync; after every step: SyncedTo = model tip, BlockHash(h) = best-chain hash for every h in the window, every tx block field on the best chain and equal to the model; non-trivial = sequences containing a disconnect or an offline reorg followed by another step"
+		cov["rule"] = "every sequence of evolution steps up to the depth over {extend (empty / paying the wallet / spending a wallet output / re-confirming reorged txs), disconnect, duplicate disconnect, stale disconnect (above tip, sibling of tip), restart, offline extension, offline reorg depth 1 and 2 and of every block, offline extension with a block arriving before the start-up rescan is answered} x 3 notification orders (btcd, bitcoind, legacy), on the real wallet through its notification loop and start-up sync; after every step: SyncedTo = model tip, BlockHash(h) = best-chain hash for every h in the window, every tx block field on the best chain and equal to the model; non-trivial = sequences containing a disconnect or an offline reorg followed by another step"
 		cov["reorg_window"] = window
 		if _, ok := cov["samples"]; !ok {
 			cov["samples"] = []string{"(none)"}
@@ -407,7 +431,7 @@ func runC15(args []string) {
 		return
 	}
 	online := []c15Step{stExtEmpty, stExtFund, stExtSpend, stExtRemine, stDisc, stDupDisc, stDupOlder, stStaleAbove, stStaleSib}
-	offline := []c15Step{stRestart, stOffline1, stOfflineRe1, stOfflineRe2, stOfflineAll}
+	offline := []c15Step{stRestart, stOffline1, stOfflineRe1, stOfflineRe2, stOfflineAll, stOfflineLate}
 	depth := 4
 	styles := []int{0, 1, 2}
 	alpha := append(append([]c15Step{}, online...), offline...)
@@ -486,11 +510,11 @@ func runC15(args []string) {
 			// at most two offline steps per sequence (each costs a full restart)
 			off := 0
 			for _, p := range prefix {
-				if p == stRestart || p == stOffline1 || p == stOfflineRe1 || p == stOfflineRe2 || p == stOfflineAll {
+				if p == stRestart || p == stOffline1 || p == stOfflineRe1 || p == stOfflineRe2 || p == stOfflineAll || p == stOfflineLate {
 					off++
 				}
 			}
-			if off >= 2 && (s == stRestart || s == stOffline1 || s == stOfflineRe1 || s == stOfflineRe2 || s == stOfflineAll) {
+			if off >= 2 && (s == stRestart || s == stOffline1 || s == stOfflineRe1 || s == stOfflineRe2 || s == stOfflineAll || s == stOfflineLate) {
 				continue
 			}
 			rec(append(append([]c15Step{}, prefix...), s))
